@@ -71,7 +71,7 @@ func c05NoLaunchAfterCancel(e *Env, s *Sched) {
 		"a step can be launched after the stop request was accepted (cancel flag not re-tested for each node before launch)", e.FactsStr("dominating conditions: ", e.DCS(s.Launch)))
 	n := 0
 	for _, ci := range ir.CallsIn(s.Worker, func(c *ssa.CallCommon) bool {
-		return c.StaticCallee() != nil && e.Reaches(c.StaticCallee(), func(x *ssa.Function) bool { return x == s.Execute })
+		return c.StaticCallee() != nil && e.ReachesRepo(c.StaticCallee(), func(x *ssa.Function) bool { return x == s.Execute })
 	}) {
 		n++
 		r.Check(inLoopLit(ci), "worker: exec under !isCanceled() tested in each iteration of the exec loop", e.InstrPos(ci),
@@ -536,7 +536,7 @@ func c05TimeoutCtx(e *Env, s *Sched) {
 		"the run's timeout is not turned into a context deadline")
 	// the worker's exec call uses a load of that cell
 	for _, ci := range ir.CallsIn(s.Worker, func(c *ssa.CallCommon) bool {
-		return c.StaticCallee() != nil && e.Reaches(c.StaticCallee(), func(x *ssa.Function) bool { return x == s.Execute })
+		return c.StaticCallee() != nil && e.ReachesRepo(c.StaticCallee(), func(x *ssa.Function) bool { return x == s.Execute })
 	}) {
 		ok := false
 		for _, a := range ci.Common().Args {
